@@ -2,7 +2,7 @@
    Each theorem: the entry point succeeds only for its role.  (A failed call changes nothing:
    C08_failed_tx_changes_nothing.) *)
 From MP.Model Require Import Prelude U128 SInt Feed Vamm VammOps Token World Engine Runtime.
-From MP.Proofs Require Import Tactics ConfigFacts.
+From MP.Proofs Require Import Tactics ConfigFacts StepFacts.
 
 Theorem C09_vamm_swap_input : forall v e s d q l c r, swap_input v e s d q l c = Ok r -> s = v_engine (vc v) /\ v_open (vs v) = true.
 Proof. exact swap_input_only_engine. Qed.
@@ -86,3 +86,22 @@ Print Assumptions C09_feed_update_owner.
 Theorem C09_role_is_exactly_the_holder : forall a s, is_admin (Some a) s = true <-> s = a.
 Proof. exact is_admin_some. Qed.
 Print Assumptions C09_role_is_exactly_the_holder.
+
+(* TRANSACTION LEVEL.  The engine's privileged messages sent by anyone but the role holder: the transaction
+   fails and returns the very same world (any funds attached, any fault index). *)
+Theorem C09_not_owner_update_config_tx : forall f w s o i fp a b c d funds, s <> e_owner (ec (w_eng w)) ->
+  step_f f w (OEngine s (EUpdateConfig o i fp a b c d) funds) = (w, false).
+Proof. exact not_owner_update_config_tx. Qed.
+Print Assumptions C09_not_owner_update_config_tx.
+Theorem C09_not_pauser_set_pause_tx : forall f w s p funds, is_admin (e_pauser (w_eng w)) s = false ->
+  step_f f w (OEngine s (ESetPause p) funds) = (w, false).
+Proof. exact not_pauser_set_pause_tx. Qed.
+Print Assumptions C09_not_pauser_set_pause_tx.
+Theorem C09_not_pauser_update_pauser_tx : forall f w s p funds, is_admin (e_pauser (w_eng w)) s = false ->
+  step_f f w (OEngine s (EUpdatePauser p) funds) = (w, false).
+Proof. exact not_pauser_update_pauser_tx. Qed.
+Print Assumptions C09_not_pauser_update_pauser_tx.
+Theorem C09_not_pauser_whitelist_tx : forall f w s a funds, is_admin (e_pauser (w_eng w)) s = false ->
+  step_f f w (OEngine s (EAddWhitelist a) funds) = (w, false) /\ step_f f w (OEngine s (ERemoveWhitelist a) funds) = (w, false).
+Proof. exact not_pauser_whitelist_tx. Qed.
+Print Assumptions C09_not_pauser_whitelist_tx.
